@@ -462,6 +462,11 @@ def boundary_jobs(rng, base):
     return jobs
 
 
+def key_literal(name):
+    """KeyTypes member name -> the schemas' literal (for signatures only)"""
+    return "".join(w.capitalize() for w in name.split("_"))
+
+
 def read_back(fmt, data):
     if fmt == "json":
         from basyx.aas.adapter.json import read_aas_json_file
@@ -470,11 +475,14 @@ def read_back(fmt, data):
     return read_aas_xml_file(io.BytesIO(data), failsafe=False)
 
 
-def read_oracle(chk, judges, twin, t, rng, store, i, every_style=False, kinds=None, boundaries=False):
+def read_oracle(chk, judges, twin, t, rng, store, i, every_style=False, kinds=None, boundaries=False, spec_jobs=None):
     """documents of the independent writer must be judged valid, be accepted by the strict readers and yield the
-    canonical form they were written from.  every_style: one document per (literal type, spelling style) on top"""
-    base = [c05_spec.norm(aasgen.canon(o)) for o in store]
-    jobs = [(json.loads(json.dumps(base)), {}, None)]
+    canonical form they were written from.  every_style: one document per (literal type, spelling style) on top.
+    spec_jobs (store is None): [(canons, knobs, (class, member, facet))] written from the specification alone - values
+    no SDK constructor was asked about; one document per job and format"""
+    base = [c05_spec.norm(aasgen.canon(o)) for o in store] if store is not None else []
+    jobs = [(json.loads(json.dumps(base)), {}, None)] if store is not None else []
+    jobs += spec_jobs or []
     for kind in (VARIANT_KINDS if kinds is None else kinds):
         canons = json.loads(json.dumps(base))
         knobs, vsig = variants(kind, rng, canons)
@@ -488,6 +496,7 @@ def read_oracle(chk, judges, twin, t, rng, store, i, every_style=False, kinds=No
                 jobs.append((json.loads(json.dumps(base)), {"literal_style": {tag: style}},
                              ("ValueDataType", "value", f"lexical:{xs_of_tag(tag)}:{style}")))
     baseline_failed = set()
+    noted = {}
     for canons, knobs, vsig in jobs:
         canons = [c05_spec.norm(c) for c in canons]
         exp = {c["id"]: c for c in canons}
@@ -556,10 +565,17 @@ def read_oracle(chk, judges, twin, t, rng, store, i, every_style=False, kinds=No
                     s = (f"C05:read:{fmt}:baseline:{'/'.join(attrs[-2:])}:"
                          f"{'raised' if problem.startswith('raised') else 'value'}{leaf}")
                 text = data if isinstance(data, str) else data.decode("utf-8")
+                note = knobs.get("note")
+                if note and s in noted:         # same signature: listed in the first replay instead of a replay each
+                    noted[s].append({"case": note, "problem": problem})
+                    continue
+                replay = {"format": fmt, "variant": list(vsig) if vsig else None, "problem": problem,
+                          "document": text[:30000]}
+                if note:
+                    replay["case"] = note
+                    noted[s] = replay["also_failing"] = []
                 chk.fail(s, f"a schema-valid {fmt.upper()} document of the independent writer is not read back as written "
-                            f"({vsig or 'baseline'}): {problem}",
-                         {"format": fmt, "variant": list(vsig) if vsig else None, "problem": problem,
-                          "document": text[:30000]})
+                            f"({vsig or 'baseline'}{', ' + note if note else ''}): {problem}", replay)
 
 
 # ------------------------------------------------------------------------------------------------- run
@@ -868,6 +884,33 @@ def run(chk):
     except Exception:
         import traceback
         chk.tie_broken("fraction-sweep", traceback.format_exc()[-1500:])
+
+    # ---------------------------------------------------------------- admissible key chains of references: a sweep, every run
+    try:
+        sweep = c05_spec.reference_sweep()
+        chk.count("refsweep:chains", len(sweep))
+        read_oracle(chk, judges, twin, t, rng, None, -9, kinds=[], spec_jobs=[
+            (canons, {"note": "/".join(key_literal(k) for k in chain) + " at " + site}, (cls, "keys", "key-chain"))
+            for canons, cls, chain, site in sweep])
+        # writing direction: the same references in one store (obtained through the strict reader - the constructors
+        # are not asked directly; a rejected chain is already reported above and left out here)
+        from basyx.aas import model as _model
+        ws = _model.DictObjectStore()
+        for canons, cls, chain, site in sweep:
+            try:
+                ws.update(read_back("json", json.dumps(c05_spec.IndependentWriter(t, {}).json_env(canons))))
+            except Exception:
+                chk.count("refsweep:write:left-out")
+        if len(ws):
+            chk.seen(("refsweep-write", len(ws)))
+            try:
+                write_oracle(chk, judges, twin, ws, -9, "reference sweep")
+            except Exception:
+                if not writer_raised(chk, ws, "reference sweep", t):
+                    raise
+    except Exception:
+        import traceback
+        chk.tie_broken("reference-sweep", traceback.format_exc()[-1500:])
 
     # ---------------------------------------------------------------- boundary lengths of every constrained string type
     for i in range(2 if quick else 30):
